@@ -1,5 +1,6 @@
 import Libp2pModel.Model.C29
 import Libp2pModel.Proofs.C28Inv
+import Libp2pModel.Proofs.C29BeliefHb2
 /-!
 # C29 — theorems
 
@@ -186,8 +187,8 @@ def OkRun29 : State → List TOp → Prop
   | _, [] => True
   | s, o :: os => okOp29 s o ∧ OkRun29 (step s o).1 os
 
-/-- THE property over whole histories (not proved at this strength, see `level_note`): after every
-op sequence from the initial state the belief invariant holds. -/
+/-- THE property over whole histories: after every op sequence from the initial state the belief
+invariant holds (proved below: `belief_correct`). -/
 def full_statement : Prop :=
   ∀ (c : Cfg) (hb slack : Nat) (ops : List TOp), OkRun29 (init c hb slack) ops →
     BeliefOK (exec (init c hb slack) ops)
@@ -197,10 +198,9 @@ theorem meshOK_always (c : Cfg) (hb slack : Nat) (ops : List TOp) (h : OkRun (in
     MeshOK (exec (init c hb slack) ops) :=
   (inv_exec ops _ (inv_init c hb slack) h).mesh
 
-/-- **What is proved of the property** (`full_statement` is the whole-history form): every
-notification call site reduces to one of the two calls below evaluated on the already-updated
-meshes, and each call leaves the notified handler right and all other peers' handlers untouched —
-under the mesh invariant, which holds after every history (`meshOK_always`). -/
+/-- The two notification functions on arbitrary states (the building blocks of `belief_correct`):
+each call leaves the notified handler right and all other peers' handlers untouched — under the
+mesh invariant, which holds after every history (`meshOK_always`). -/
 theorem belief_correct_partial :
     (∀ (s : State) (p : Nat) (ts : List Nat), (∃ t ∈ ts, inMesh s t p = true) →
       (∀ t, t ∉ ts → inMesh s t p = true →
@@ -215,9 +215,95 @@ theorem belief_correct_partial :
       (notify s (peerRemoved s p old)).belief q c = s.belief q c) :=
   ⟨peerAdded_correct, peerRemoved_correct, peerAdded_other, fun s p old q c h => peerRemoved_other s p old q c h⟩
 
+
+/-! ## the whole-history theorem -/
+
+/-- one step of the node model preserves the joint invariant `BInv` (mesh invariant + connection
+lists + first-connection beliefs), for every op: connection established / closed (incl. the first
+connection closing and the next one being promoted), protocol report, explicit peer, subscriptions
+(with the silent grafts and the pending removals), GRAFT, PRUNE, `join`, `leave`, `publish`, and the
+heartbeat with `send_graft_prune` -/
+theorem binv_step (s : State) (o : TOp) (h : BInv s) (hok : okOp29 s o) : BInv (step s o).1 := by
+  obtain ⟨hok1, hok2⟩ := hok
+  unfold step stepG
+  cases hop : o.op with
+  | connect p c ob =>
+    simp only [hop] at hok2
+    exact binv_connect s p c ob h hok2
+  | kind p g => exact binv_setKind s p g h
+  | disconnect p c => exact binv_disconnect s p c h
+  | explicit p =>
+    simp only [okOp, hop] at hok1
+    exact binv_addExplicit s p h hok1
+  | subs p l => exact binv_recvSubs s o.now o.sc p l h
+  | graft p ts => exact binv_recvGraft s o.now o.sc p ts h
+  | prune p l => exact binv_recvPrune s o.now p l h
+  | subscribe t final => exact binv_subscribe s o.sc t final h
+  | unsubscribe t => exact binv_unsubscribe s o.now t h
+  | publish t fan => exact binv_publish s t fan h
+  | heartbeat final fan => exact binv_heartbeat s o.now o.sc final fan h
+  | nop => exact h
+
+theorem binv_init (c : Cfg) (hb slack : Nat) : BInv (init c hb slack) := by
+  refine ⟨inv_init c hb slack, ?_, ?_⟩
+  · intro p l hl
+    simp [connsOf, init] at hl
+  · intro p
+    unfold HBp
+    have h1 : headB (init c hb slack) p = false := by simp [headB, headOf, connsOf, init]
+    rw [h1]
+    simp only [Bool.false_eq_true, false_iff]
+    rintro ⟨t, ht⟩
+    simp [inMesh, init] at ht
+
+theorem binv_exec : ∀ (ops : List TOp) (s : State), BInv s → OkRun29 s ops → BInv (exec s ops) := by
+  intro ops
+  induction ops with
+  | nil => intro s h _; exact h
+  | cons o os ih =>
+    intro s h hok
+    simp only [exec, List.foldl_cons]
+    exact ih _ (binv_step s o h hok.1) hok.2
+
+/-- the invariant in the vocabulary of the property statement -/
+theorem beliefOK_of_binv (s : State) (h : BInv s) : BeliefOK s := by
+  intro p pd c rest hpd hc
+  have hhead : headOf s p = some c := headOf_some_iff.2 ⟨pd, rest, hpd, hc⟩
+  have hcon : connsOf s p = some (c :: rest) := by simp [connsOf, hpd, hc]
+  obtain ⟨_, hnd, htl⟩ := h.tail p (c :: rest) hcon
+  refine ⟨?_, fun c' hc' => htl c' (by simpa using hc'), hnd⟩
+  have := h.hb p
+  unfold HBp at this
+  rw [headB_eq_of_head hhead, inM_iff] at this
+  exact this
+
+/-- **C29, whole histories.** From the initial state, after EVERY sequence of ops of the node model
+(any scores, times and admissible random choices; side conditions `OkRun29`: fresh connection ids,
+`add_explicit_peer` only for peers that are in no mesh), for every connected peer: the handler of its
+first connection believes "in a mesh" exactly when the peer is a member of at least one topic mesh,
+the handlers of its other connections believe "not in a mesh", and its connection list has no
+duplicates. -/
+theorem belief_correct : full_statement := by
+  intro c hb slack ops hok
+  exact beliefOK_of_binv _ (binv_exec ops _ (binv_init c hb slack) hok)
+
+/-- no notification is ever addressed to anything but an existing first connection: between two
+states related by an op other than connect/disconnect only first-connection beliefs change -/
+theorem only_first_connections_notified (s : State) (p : Nat) (ts : List Nat) (old : Nat) :
+    (∀ n ∈ peerAdded s p ts, n.1 = p ∧ headOf s p = some n.2.1 ∧ n.2.2 = true)
+    ∧ (∀ n ∈ peerRemoved s p old, n.1 = p ∧ headOf s p = some n.2.1 ∧ n.2.2 = false) :=
+  ⟨peerAdded_heads s p ts, peerRemoved_heads s p old⟩
+
 /-! ## non-vacuity -/
 
 example : ∃ t ∈ [0, 1], inMesh cexState t 0 = true := ⟨0, by simp, by decide⟩
+
+/-- the side conditions of `belief_correct` are satisfiable by a history that connects a peer -/
+example : OkRun29 (init cexState.cfg 1000000000 1)
+    [⟨0, fun _ => 0, .connect 0 7 false⟩, ⟨0, fun _ => 0, .kind 0 true⟩] := by
+  refine ⟨⟨trivial, ?_⟩, ⟨trivial, trivial⟩, trivial⟩
+  intro pd h
+  simp [init] at h
 
 end C29
 
@@ -228,3 +314,6 @@ end C29
 #print axioms C29.heartbeat_multi_graft_buggy_counterexample
 #print axioms C29.meshOK_always
 #print axioms C29.belief_correct_partial
+#print axioms C29.binv_step
+#print axioms C29.belief_correct
+#print axioms C29.only_first_connections_notified
